@@ -99,7 +99,61 @@ fn judge_paired<F: Fl>(av: &[f64], bv: &[f64], confs: &[(Kind, f64)], s: &mut Si
     }
 }
 
+/// a container whose by-reference iterator gives no useful size hint ((0, None), like
+/// `flatten`) — the iterator protocol allows it, so nothing may rely on the hint
+struct NoHint<F>(Vec<F>);
+struct NoHintIter<'a, F>(std::slice::Iter<'a, F>);
+impl<'a, F> Iterator for NoHintIter<'a, F> {
+    type Item = &'a F;
+    fn next(&mut self) -> Option<&'a F> {
+        self.0.next()
+    }
+}
+impl<'a, F> IntoIterator for &'a NoHint<F> {
+    type Item = &'a F;
+    type IntoIter = NoHintIter<'a, F>;
+    fn into_iter(self) -> NoHintIter<'a, F> {
+        NoHintIter(self.0.iter())
+    }
+}
+
 fn judge_lengths<F: Fl>(la: usize, lb: usize, s: &mut Sink) {
+    // the same through iterables without a size hint
+    {
+        let a = NoHint((0..la).map(|i| F::of(i as f64 + 1.0)).collect::<Vec<F>>());
+        let b = NoHint((0..lb).map(|i| F::of(0.5 * i as f64)).collect::<Vec<F>>());
+        let c = conf(Kind::Two, 0.95);
+        let case = || json!({"check":"lengths","type":F::NAME,"la":la,"lb":lb,"iter":"no size hint"});
+        let mut st = Paired::<F>::default();
+        let r1 = Paired::<F>::ci(c, &a, &b).map(|_| ());
+        let r2 = st.extend(&a, &b);
+        s.evals += 2;
+        s.calls += 2;
+        for (name, r) in [("Paired::ci", r1), ("Paired::extend", r2)] {
+            if la != lb {
+                match r {
+                    Err(CIError::DifferentSampleSizes(x, y)) if (x, y) == (la, lb) => {}
+                    other => s.violation(format!("paired/unequal-lengths/{name}/iterator-without-size-hint"), format!("{name} with lengths ({la}, {lb}) through iterators whose size_hint is (0, None) = {other:?}, expected DifferentSampleSizes({la}, {lb})"), case()),
+                }
+            } else if let Err(CIError::DifferentSampleSizes(..)) = r {
+                s.violation(format!("paired/equal-lengths-rejected/{name}/iterator-without-size-hint"), format!("{name} with lengths ({la}, {lb})"), case());
+            }
+        }
+        if la == lb && la >= 2 {
+            // and the result must be the same as through slices
+            let (va, vb) = (a.0.clone(), b.0.clone());
+            let x = Paired::<F>::ci(c, &a, &b);
+            let y = Paired::<F>::ci(c, &va, &vb);
+            if !bits_eq(&x, &y) {
+                s.violation("paired/result-depends-on-the-iterable-type", format!("{x:?} vs {y:?}"), case());
+            }
+            let xu = Unpaired::<F>::ci(c, &a, &b);
+            let yu = Unpaired::<F>::ci(c, &va, &vb);
+            if !bits_eq(&xu, &yu) {
+                s.violation("unpaired/result-depends-on-the-iterable-type", format!("{xu:?} vs {yu:?}"), case());
+            }
+        }
+    }
     let a: Vec<F> = (0..la).map(|i| F::of(i as f64 + 1.0)).collect();
     let b: Vec<F> = (0..lb).map(|i| F::of(0.5 * i as f64)).collect();
     let c = conf(Kind::Two, 0.95);
